@@ -80,10 +80,12 @@ func (w *schedWorker) Item(idx int, emit func(vf.Violation), st sweep.Stats, sam
 		case gotS != wantS:
 			problem = "wrong-output"
 		}
-		for _, p := range x.Points {
-			if len(p.Enabled) > 1 {
-				nontrivial++
-				break
+		if x.Fresh {
+			for _, p := range x.Points {
+				if len(p.Enabled) > 1 {
+					nontrivial++
+					break
+				}
 			}
 		}
 		if problem == "" {
@@ -116,6 +118,7 @@ func (w *schedWorker) Item(idx int, emit func(vf.Violation), st sweep.Stats, sam
 			Replay: map[string]any{"scenario": sc.Name, "choices": x.Choices, "status": x.Status, "observed": x.Out, "expected": want, "trace_tail": tr}})
 	})
 	st["executions"] += ex.Execs
+	st["distinct_schedules"] += ex.FreshExecs
 	st["states"] += ex.States()
 	st["steps"] += ex.Steps
 	st["nontrivial_executions"] += nontrivial
@@ -227,6 +230,7 @@ func runSchedWith(prop, tier string, args []string, w *schedWorker, rule string,
 	run.Coverage["transitions"] = res.Stats["steps"]
 	run.Coverage["traces_validated_against_impl"] = res.Stats["executions"]
 	run.Coverage["executions"] = res.Stats["executions"]
+	run.Coverage["distinct_schedules"] = res.Stats["distinct_schedules"] // executions minus the re-runs of lower preemption bounds
 	run.Coverage["scenarios"] = len(w.scenarios)
 	run.Coverage["scenarios_explored_exhaustively"] = res.Stats["scenarios_exhausted"]
 	run.Coverage["scenarios_capped"] = res.Stats["scenarios_capped"]
